@@ -139,7 +139,8 @@ fn parse_cli(out: &str) -> Option<String> {
 /// (the glue computes the machine-word copy of each p itself: `as_usize` in main.rs)
 fn do_cli(ctx: &mut Ctx, f: &[BigInt], ps: &[BigInt]) {
     let cfg = format!(
-        "to_find = ['factorization-mod-p']\n[input.polynomial_and_primes]\npolynomial = {}\nprimes = {}\n",
+        "to_find = {}\n[input.polynomial_and_primes]\npolynomial = {}\nprimes = {}\n",
+        to_find_list("factorization-mod-p", &["resultant", "discriminant", "integral_basis"], variant_of(&[show_ints(f), show_ints(ps)]) / 3 + 1),
         toml_list_z(f, if f.is_empty() { 0 } else { variant_of(&[show_ints(f), show_ints(ps)]) % 3 }),
         toml_list(ps)
     );
